@@ -1,8 +1,10 @@
 #!/bin/bash
-# usage: seedcheck_all.sh — re-runs every kept seeded change against its own property's quick check (applies, checks, reverts)
+# usage: seedcheck_all.sh [PROP ...] — re-runs every kept seeded change against its own property's quick check (applies, checks, reverts)
 cd /verif
+only=" $* "
 for d in seeded/C*-*/; do
   id=$(basename $d); prop=${id%%-*}
+  if [ $# -gt 0 ] && [[ "$only" != *" $prop "* ]]; then continue; fi
   cd /repo; if ! git diff --quiet; then echo "repo dirty"; exit 2; fi
   if ! git apply /verif/$d/patch.diff 2>/dev/null; then echo "$id: PATCH DOES NOT APPLY"; continue; fi
   out=$(cd /verif && ./check $prop --tier quick 2>&1 | grep -E '^(VIOLATION|OK|INCONCLUSIVE)' | head -3 | tr '\n' ' ' | cut -c1-260)
